@@ -96,7 +96,7 @@ FamQuick    == {Graphs3, EphSeq3, EphChain4, Mixed2, Maps2}
 FamThorough == {Graphs3, EphSeq4, Mixed3, Maps3, MapsEph3}
 FamGate     == {Graphs3, EphChain4, Mixed2, Maps2}
 FamNestQuick    == {Nest3, NestHeld2s}
-FamNestThorough == {Nest3, Nest2x4, NestHeld2}
+FamNestThorough == {Nest3, Nest2x4, NestHeld2s}      \* NestHeld2 (about 10^5 shapes more) is left to a longer budget
 FamNestGate     == {Nest2}
 FamNestGateThorough == {Nest3, NestHeld2s}
 FamNestHeld     == {NestHeld2s}
